@@ -160,9 +160,14 @@ def specs(R):
         "move_dim": [((img, 1, -1), {})],
         "multinomial": [((r(N, 6), 3), {})],
         "normalize_image": [((img,), {}), ((img,), {"mode": "center"}), ((img,), {"mode": "unit", "min": 0.2, "max": 0.8}),
+                            # values partly outside the interval, also the intervals for which the rescaling is the identity
+                            ((img * 2.4 - 0.7,), {"mode": "unit", "min": 0.0, "max": 1.0}), ((img * 2.4 - 0.7,), {"mode": "center", "min": -0.5, "max": 0.5}),
+                            ((img * 2.4 - 0.7,), {"mode": "unit", "min": 0.25, "max": 0.75}), ((img * 2.4 - 0.7,), {"mode": "center", "min": 0.0, "max": 2.0}),
+                            ((img * 2.4 - 0.7,), {"mode": "unit", "min": 1.0, "max": 2.0}), ((img * 2.4 - 0.7,), {"mode": "center"}),
                             ((img.clone(),), {"inplace": True, "_inplace_ok": True})],
         "rand_sample": [((img, 5), {}), ((img, 5), {"mask": mask})],
-        "rescale": [((img,), {}), ((img,), {"min": 0, "max": 255}), ((img,), {"min": 0, "max": 1, "data_min": 0.2, "data_max": 0.7})],
+        "rescale": [((img,), {}), ((img,), {"min": 0, "max": 255}), ((img,), {"min": 0, "max": 1, "data_min": 0.2, "data_max": 0.7}),
+                    ((img * 2.4 - 0.7,), {"min": 0, "max": 1, "data_min": 0, "data_max": 1}), ((img * 2.4 - 0.7,), {"data_min": 0.0, "data_max": 1.0})],
         "rotation_matrix": [((r(N, 3 if D == 3 else 1),), {})],
         "euler_rotation_angles": [((R["rot"],), {})],
         "euler_rotation_order": [((), {})],
@@ -174,7 +179,7 @@ def specs(R):
         "tensordot": [((r(3, 4), r(4, 5)), {"dims": 1}), ((r(3, 4), r(3, 4)), {})],
         "vectordot": [((r(N, 5, D), r(N, 5, D)), {})],
         "vector_rotation": [((r(N, 3), r(N, 3)), {})],
-        "threshold": [((img, 0.3), {}), ((img, 0.3), {"max": 0.8})],
+        "threshold": [((img, 0.3), {}), ((img, 0.3), {"max": 0.8}), ((img, -1.0), {"max": 5.0})],
         "transform_grid": [((R["hom"], coords), {})],
         "transform_points": [((R["hom"], R["points"]), {})],
         "unravel_coords": [((torch.tensor([0, 3, 7]), tuple(reversed(sp))), {})],
@@ -315,6 +320,12 @@ def obj_state(o, depth=0, seen=None):
                 return
             seen[id(x)] = True
             out[path] = ("module", id(x), type(x).__name__, x.training)
+            out[path + ".<non-persistent buffers>"] = ("value", repr(sorted(getattr(x, "_non_persistent_buffers_set", set()))))
+            if d == 0:
+                try:
+                    out[path + ".<state_dict keys>"] = ("value", repr(sorted(x.state_dict().keys())))
+                except Exception as e:  # noqa
+                    out[path + ".<state_dict keys>"] = ("value", "raises " + type(e).__name__)
             for k, v in x._parameters.items():
                 put(f"{path}._parameters[{k}]", v, d + 1)
             for k, v in x._buffers.items():
@@ -391,7 +402,8 @@ def method_args(cls_name, obj, mname, sig, R):
         "narrow": [(0, 1, 2)], "downsample": [(), (1,)], "upsample": [(), (1,)], "pyramid": [(2,)],
         "avg_pool": [(2,)], "pool": [(2,)], "region_of_interest": [((1,) * D, (2,) * D)],
         "grid": [(g2,), ()], "axes": [(Axes.WORLD,), (Axes.CUBE,), ()], "sample": [(g2,)],
-        "normalize": [(), ("center",)], "rescale": [(0, 1), ()], "conv": [(torch.tensor([0.25, 0.5, 0.25]),)],
+        "normalize": [(), ("center",), ("unit", 0.0, 1.0), ("center", -0.5, 0.5), ("unit", 0.25, 0.75)],
+        "rescale": [(0, 1), (), (0, 1, 0, 1), (None, None, 0.0, 1.0)], "conv": [(torch.tensor([0.25, 0.5, 0.25]),)],
         "transform": [(), (Axes.CUBE, Axes.WORLD)], "transform_points": [(r(3, D),)], "transform_vectors": [(r(3, D),)],
         "apply_transform": [(r(3, D), Axes.GRID, Axes.WORLD)], "inverse_transform": [()], "affine": [()], "inverse_affine": [()],
         "coords": [()], "points": [()], "cube": [()], "domain": [()], "clone": [()], "size": [()], "shape": [()],
@@ -445,8 +457,8 @@ def make_objects(D):
     objs = {
         "Grid": g,
         "Cube": lambda: Cube(extent=(4.0, 5.0, 6.0)[:D], center=(1.0, -2.0, 0.5)[:D]),
-        "Image": lambda: Image(torch.rand(2, *sp), g()),
-        "ImageBatch": lambda: ImageBatch(torch.rand(2, 2, *sp), [g(), g().center((0.0,) * D)]),
+        "Image": lambda: Image(torch.rand(2, *sp) * 2.4 - 0.7, g()),
+        "ImageBatch": lambda: ImageBatch(torch.rand(2, 2, *sp) * 2.4 - 0.7, [g(), g().center((0.0,) * D)]),
         "FlowField": lambda: FlowField(0.1 * torch.rand(D, *sp), g(), Axes.WORLD),
         "FlowFields": lambda: FlowFields(0.1 * torch.rand(2, D, *sp), [g(), g().center((0.0,) * D)], Axes.CUBE_CORNERS),
     }
